@@ -276,6 +276,34 @@ def h03b_betdaq(c):
         c.cover("handled")
 
 
+def h03d(c, N=3):
+    """batching transaction (C02 world): whatever the positions of explicit execute() calls, no request is handed to the execution layer twice -
+    a second copy would be a second operation in flight for the order"""
+    from .c02 import h02b
+    from .c06 import _Only
+    h02b(_Only(c, ("in-exactly-one-package", "no-extra-orders-sent", "nothing-left-queued", "no-exception")), N=N)
+
+
+def h03e(c, K=3):
+    """live mode (C11 world: late responses, exchange-side fills, current / stale snapshots, replaced bets whose stream update may precede the
+    replace response) with every status write recorded: legal transitions, and the matched size an order had when it was reported complete
+    is never taken back afterwards"""
+    from .c11 import h11a
+    from .c06 import _Only
+    with lc.Recorder() as rec:
+        h11a(_Only(c, ("no-exception",)), K=K)
+    seen = []
+    for (o, old, new, who) in rec.orders:
+        if not any(o is x for x in seen):
+            seen.append(o)
+    lc.transition_obligations(c, rec, seen)
+    # live mode: the local view may lag the exchange when an order is reported complete (a cancel refused with BET_TAKEN_OR_LAPSED before
+    # the stream delivered the match), so the matched size may still catch up with its own bet - it is never taken back
+    for o, m in rec.completed:
+        c.ob("reported-complete=>matched-size-never-taken-back", o.size_matched >= m, at_completion=m, now=o.size_matched, bet_id=o.bet_id)
+    c.cover("recorded")
+
+
 from .c04 import h04b as _h04b  # noqa: E402  (the loop-level history harness, audited here for transitions and finality)
 
 OUT = ["K > 3 interleavings as concrete histories (covered only through the arbitrary in-flight pre-state of H03b)",
@@ -284,6 +312,9 @@ HARNESSES = [
     Harness("H03a", h03a, pattern="P2 inductive step", requires=["accepted", "rejected"], outside=OUT),
     Harness("H03b-live", h03b_live, pattern="P5 fault schedule as a variable", requires=["handled", "stream-first", "retries-exhausted", "replacement"], outside=OUT),
     Harness("H03b-betdaq", h03b_betdaq, pattern="P5 fault schedule as a variable", requires=["handled", "poll-in-flight"], outside=OUT, selfcheck=False),
+    Harness("H03d", h03d, quick=dict(N=3), thorough=dict(N=4), pattern="P3 bounded history", requires=["batched", "explicit-execute"], outside=OUT, selfcheck=False),
+    Harness("H03e", h03e, quick=dict(K=3), thorough=dict(K=4), pattern="P3/P5 schedule as a variable", requires=["run", "recorded", "replaced-bet"], outside=OUT,
+            max_paths=(400000, 5000000), wall_s=(300, 3000), selfcheck=False),
     Harness("H03c", _h04b, quick=dict(K=1, focus="C03", variants=("default", "no-isolation")), thorough=dict(K=2, focus="C03", variants=("default", "no-isolation")),
             pattern="P3 bounded history through the simulation loop (transitions recorded at the write)", requires=["audited", "placed", "amended"],
             wall_s=(300, 3000), max_paths=(400000, 6000000), selfcheck=False, outside=OUT),
